@@ -4,6 +4,7 @@ from __future__ import annotations
 from .. import editcorr as ec
 from .. import editprops as ep
 from .. import framework as fw
+from ..gen import docs
 from ..oracle import cstread
 from .c05 import is_ident_leaf
 
@@ -165,8 +166,7 @@ def check(ctx, h, r):
                 ctx.fail({"clause": "insert-locality", **key0, "existing": existing_kind(before, names, depth)}, inp,
                          f"{r.op!r}: the output is not the input plus one inserted block: {before!r} -> {out!r}")
                 return
-            if canonical and not (depth and h.info.get("wrapper") in ("call", "call-select", "lambda-call",
-                                                                       "lambda-call-paren", "paren")):
+            if canonical and not (depth and h.info.get("wrapper") in docs.CALL_WRAPPERS + ("lambda-call-paren", "paren")):
                 # byte level: common prefix + inserted text + common suffix
                 p = 0
                 while p < len(before) and p < len(out) and before[p] == out[p]:
